@@ -117,6 +117,10 @@ EntryAllowed(ev) ==
          \* sandbox before: afterwards it still does (or is null), never the refused address
          /\ (ev.heldapi => Eq(ev.stored, FromInt(48)) \/ Eq(ev.stored, FromInt(0 - 1)))
 
+\* the address of a sandbox function as the application gets it (get_sandbox_function_address):
+\* the function's representation inside the sandbox, whether or not it was invoked before
+FnAddrAllowed(ev) == ev.out = "ok" /\ Eq(ev.rep, FromInt(ev.want)) /\ Eq(ev.cellrep, FromInt(ev.want))
+
 \* copy_memory_or_grant_access on a backend with the grant / deny interface: the backend is asked
 \* to expose a raw application range only after the range has been accepted; a refused range
 \* (null, wrapping, crossing a sandbox boundary) aborts and was never shown to the backend
